@@ -1,10 +1,12 @@
 #![allow(dead_code, unused_imports, unused_variables)]
+mod alloc;
 mod ctx;
 mod gen;
 mod docs;
 mod obs;
 mod refmodel;
 mod spec;
+mod wmodel;
 
 mod c03;
 mod c04;
@@ -12,15 +14,20 @@ mod c05;
 mod c06;
 mod c07;
 mod c08;
+mod c09;
 mod c12;
 mod c13;
 mod c14;
 mod c15;
 mod c16;
+mod c17;
 
 use ctx::{Ctx, Mode, Tier};
 
-const PROPS: &[&str] = &["C03", "C04", "C05", "C06", "C07", "C08", "C12", "C13", "C14", "C15", "C16"];
+#[global_allocator]
+static GLOBAL: alloc::Counting = alloc::Counting;
+
+const PROPS: &[&str] = &["C03", "C04", "C05", "C06", "C07", "C08", "C09", "C12", "C13", "C14", "C15", "C16", "C17"];
 
 fn run_check(ctx: &mut Ctx) {
     match ctx.prop.as_str() {
@@ -30,11 +37,13 @@ fn run_check(ctx: &mut Ctx) {
         "C06" => c06::run(ctx),
         "C07" => c07::run(ctx),
         "C08" => c08::run(ctx),
+        "C09" => c09::run(ctx),
         "C12" => c12::run(ctx),
         "C13" => c13::run(ctx),
         "C14" => c14::run(ctx),
         "C15" => c15::run(ctx),
         "C16" => c16::run(ctx),
+        "C17" => c17::run(ctx),
         p => panic!("machinery: unknown property {}", p),
     }
 }
